@@ -172,6 +172,77 @@ Theorem C17_morgan_atom_neighbour_order : forall (h : list Z -> Z) g g2 d d2 idx
 Proof. exact morgan_atom_neighbour_order. Qed.
 Print Assumptions C17_morgan_atom_neighbour_order.
 
+(* ---- the documented semantics, stated without reference to the enumeration order of the code ---- *)
+(* the linear hash set: for ANY duplicate-free list ps of exactly the simple paths with lo..hi atoms (one orientation
+   each), x is in the set iff x = h(key, c) for a fragment key and a counter c below min(number of paths of ps with
+   that key, cap) *)
+Theorem C17_linear_hash_list_exact : forall (h : list Z -> Z) g lo hi nbp ps, wf_mol g = true -> 1 <= lo <= hi ->
+  NoDup ps -> (forall p, In p ps <-> simple_path g p /\ lo <= len_z p <= hi /\ canonical_dir p) ->
+  forall x, In x (linear_hash_list h g lo hi nbp) <->
+    exists k c, x = h (k ++ [c]) /\
+      0 <= c < Z.min (Z.of_nat (key_count (ident (atom_identifiers g)) (bond_order g) ps k)) (cap nbp).
+Proof. exact linear_hash_list_exact. Qed.
+Print Assumptions C17_linear_hash_list_exact.
+
+(* _morgan_hash_dict(min, max): AssertionError for min < 1 or max < min, otherwise the identifier dictionaries after
+   min-1 .. max-1 refinement rounds, in this order *)
+Theorem C17_morgan_hash_dict_levels : forall (h : list Z -> Z) g lo hi,
+  morgan_hash_dict h g lo hi =
+    if (lo <? 1) || (hi <? lo) then Err OtherError
+    else Ok (map (morgan_level h g) (seq (Z.to_nat (lo - 1)) (Z.to_nat (hi - lo + 1)))).
+Proof. exact morgan_hash_dict_levels. Qed.
+Print Assumptions C17_morgan_hash_dict_levels.
+
+(* ... where round 0 is the atom identifier, every round keeps the atoms, and the identifier of atom a after r+1 rounds
+   is the hash of its identifier after r rounds followed by the sorted (bond order, neighbour identifier after r
+   rounds) pairs: the iterated neighbourhood identifier *)
+Theorem C17_morgan_level_value : forall (h : list Z -> Z) g r a,
+  keys (morgan_level h g r) = ids g /\
+  ident (morgan_level h g 0) a = ident (atom_identifiers g) a /\
+  (In a (ids g) ->
+   ident (morgan_level h g (S r)) a =
+     h (ident (morgan_level h g r) a ::
+        flatten_pairs (sort_pairs (map (fun nb => (b_ord (snd nb), ident (morgan_level h g r) (fst nb))) (nbrs g a))))).
+Proof. exact (fun h g r a => conj (morgan_level_keys h g r) (conj (morgan_level_0 h g a) (morgan_level_value h g r a))). Qed.
+Print Assumptions C17_morgan_level_value.
+
+(* ---- insertion order: the same items in another order in the atom dictionary and in the neighbour dictionaries ---- *)
+Theorem C17_linear_hash_list_reordered : forall g g', wf_mol g = true -> wf_mol g' = true -> reordered g g' ->
+  forall (h : list Z -> Z) lo hi nbp x,
+  In x (linear_hash_list h g lo hi nbp) <-> In x (linear_hash_list h g' lo hi nbp).
+Proof. exact linear_hash_list_reordered. Qed.
+Print Assumptions C17_linear_hash_list_reordered.
+
+Theorem C17_linear_bit_list_reordered : forall g g', wf_mol g = true -> wf_mol g' = true -> reordered g g' ->
+  forall (h : list Z -> Z) lo hi len nab nbp,
+  match linear_bit_list h g lo hi len nab nbp, linear_bit_list h g' lo hi len nab nbp with
+  | Ok bits, Ok bits' => forall b, In b bits <-> In b bits'
+  | Err e, Err e' => e = e'
+  | _, _ => False
+  end.
+Proof. exact linear_bit_list_reordered. Qed.
+Print Assumptions C17_linear_bit_list_reordered.
+
+Theorem C17_morgan_hash_list_reordered : forall g g', wf_mol g = true -> reordered g g' ->
+  forall (h : list Z -> Z) lo hi,
+  match morgan_hash_list h g lo hi, morgan_hash_list h g' lo hi with
+  | Ok l, Ok l' => Permutation l l'
+  | Err e, Err e' => e = e'
+  | _, _ => False
+  end.
+Proof. exact morgan_hash_list_reordered. Qed.
+Print Assumptions C17_morgan_hash_list_reordered.
+
+Theorem C17_morgan_bit_list_reordered : forall g g', wf_mol g = true -> reordered g g' ->
+  forall (h : list Z -> Z) lo hi len nab,
+  match morgan_bit_list h g lo hi len nab, morgan_bit_list h g' lo hi len nab with
+  | Ok bits, Ok bits' => Permutation bits bits'
+  | Err e, Err e' => e = e'
+  | _, _ => False
+  end.
+Proof. exact morgan_bit_list_reordered. Qed.
+Print Assumptions C17_morgan_bit_list_reordered.
+
 (* ---- the evaluation of the tuple hash used by the correspondence check (bit masks instead of `mod 2^64`) is the
         hash model Model.PyHash.hash_ztuple ---- *)
 Theorem C17_hash_ztuple_fast_eq : forall l, hash_ztuple_fast l = hash_ztuple l.
@@ -193,3 +264,15 @@ Theorem C17_example_nonvacuous :
   fold_bits 1024 3 (-5079278463555148377) = [423; 57; 136].
 Proof. exact example_nonvacuous. Qed.
 Print Assumptions C17_example_nonvacuous.
+
+(* non-vacuity of `reordered`: 2-propanol with atoms and neighbours inserted in another order *)
+Theorem C17_example_reordered :
+  wf_mol ex_mol = true /\ wf_mol ex_mol2 = true /\ reordered ex_mol ex_mol2 /\
+  m_atoms ex_mol <> m_atoms ex_mol2 /\ nbrs ex_mol 2 <> nbrs ex_mol2 2 /\
+  morgan_hash_list hash_ztuple ex_mol2 1 2 =
+    Ok [-3850700631077715909; -3850700631077715909; -3850700631077715909; 3311492739671872531;
+        -713217080876991613; 6744783386241714987; 6744783386241714987; -5079278463555148377] /\
+  morgan_level hash_ztuple ex_mol 1 =
+    [(1, 6744783386241714987); (2, -713217080876991613); (3, 6744783386241714987); (4, -5079278463555148377)].
+Proof. exact example_reordered. Qed.
+Print Assumptions C17_example_reordered.
